@@ -19,7 +19,8 @@ type Case struct {
 	Target  int    `json:"target"`  // wanted transmitted size (bytes incl. headers, CRLF line ends)
 	Lines   int    `json:"lines"`   // body split in this many lines (band between the two size measures = #line breaks)
 	BareLF  bool   `json:"bare_lf"` // body lines end in bare LF (both measures coincide)
-	Size    string `json:"size"`    // "", "true", "under", "over", "huge", "junk"
+	Size    string `json:"size"`    // "", "true", "under", "over", "huge", "junk"; Pad zero-pads the number
+	Pad     int    `json:"pad,omitempty"`
 	Backend string `json:"backend"`
 	// Extra adds a second recipient of the big message: "" none, "discard" one whose domain is
 	// not stored, "other" another stored one.
@@ -59,6 +60,7 @@ var prop = hx.Prop[Case]{
 		c.Lines = rapid.IntRange(1, 3).Draw(t, "lines")
 		c.BareLF = rapid.Bool().Draw(t, "barelf")
 		c.Size = rapid.SampledFrom([]string{"", "", "true", "under", "over", "huge", "junk"}).Draw(t, "size")
+		c.Pad = rapid.SampledFrom([]int{0, 0, 0, 7, 10, 12}).Draw(t, "pad") // RFC 1870: size-value = 1*20DIGIT, leading zeros are decimal digits
 		c.Extra = rapid.SampledFrom([]string{"", "", "discard", "other"}).Draw(t, "extra")
 		c.Lead = rapid.SampledFrom([]int{0, 0, 0, 1, 2, 5}).Draw(t, "lead")
 		c.Follow = rapid.SampledFrom([]string{"", "", "body", "body", "size", "size+body", "rset+body"}).Draw(t, "follow")
@@ -155,7 +157,10 @@ func run(c Case) *hx.Outcome {
 		mail += " SIZE=12x"
 	}
 	if declared >= 0 {
-		mail += fmt.Sprintf(" SIZE=%d", declared)
+		mail += fmt.Sprintf(" SIZE=%0*d", c.Pad, declared)
+		if c.Pad > 0 {
+			o.Class("zero-padded SIZE")
+		}
 	}
 	o.Class("SIZE " + c.Size)
 	r, err := cl.Cmd(mail)
